@@ -36,6 +36,7 @@ class RobotsTxtChecker(object):
     def __init__(self, web_client: WebClient=None, robots_txt_pool: RobotsTxtPool=None):
         self._web_client = web_client or WebClient()
         self._robots_txt_pool = robots_txt_pool or RobotsTxtPool()
+        self._fetch_locks = {}
 
     @property
     def web_client(self) -> WebClient:
@@ -125,9 +126,28 @@ class RobotsTxtChecker(object):
         except NotInPoolError:
             pass
 
-        yield from self.fetch_robots_txt(request, file=file)
+        # Only one fetch per scheme, host and port at a time. Concurrent
+        # callers wait for the fetch in progress and use its result instead
+        # of requesting the same robots.txt again.
+        key = self._robots_txt_pool.url_info_key(request.url_info)
+        lock = self._fetch_locks.get(key)
 
-        return self.can_fetch_pool(request)
+        if lock is None:
+            lock = self._fetch_locks[key] = asyncio.Lock()
+
+        yield from lock.acquire()
+
+        try:
+            try:
+                return self.can_fetch_pool(request)
+            except NotInPoolError:
+                pass
+
+            yield from self.fetch_robots_txt(request, file=file)
+
+            return self.can_fetch_pool(request)
+        finally:
+            lock.release()
 
     def _read_content(self, response: Response, original_url_info: URLInfo):
         '''Read response and parse the contents into the pool.'''
